@@ -20,10 +20,10 @@ check("C09", "Lean 4 kernel decision (decide +kernel) over all 680 triples + exh
 check("C10", "Lean 4 invariant by induction over operation histories + correspondence on random histories",
       "Theorems (lean/DiffcalcProofs/Props/C10.lean) over the hand model of Constraints: capacity invariant for every finite history of "
       "set/del/clear/bulk operations (inv_history, c10_capacity), exact deactivation, replacement policy (replace_policy, accept_free), "
-      "read-back at the real-number reading (readback_num/true). Model and class are stepped on the same random histories (all 17 names x 9 "
+      "read-back at the real-number reading (readback_num/true), rebuild from the read-out (bulk_roundtrip, wt_history). Model and class are stepped on the same random histories (all 17 names x 9 "
       "value kinds, bulk setters with unknown names) and outcome + full state compared after every operation; a rule oracle runs on the class directly.",
       "Lean kernel; standard axioms; hand model Cons.lean tied by sampled correspondence (not exhaustive); degrees(radians(x)) rounding within 1e-9; "
-      "rebuild-from-read-out clause checked by correspondence/oracle only (no theorem yet).",
+      "rebuild-from-read-out: bulk_roundtrip (Props/C10Bulk.lean) for every state obeying the capacity rules and well typed (both invariants of every history).",
       "DESIGN.md §6 C10")
 
 check("C18", "Lean 4 refinement of the list operations to plain-sequence laws + correspondence on random histories",
